@@ -634,6 +634,89 @@ def socket_lifecycle_cases(ctx, hook):
     return n
 
 
+def portserver_close_cases(ctx, hook):
+    """close() on a PortServer that has accepted 0..5 clients through its own polling: every message
+    taken in is handed out, every server-side connection is released exactly once (the clients see the
+    disconnect), close() is idempotent, send() raises afterwards."""
+    import time
+    from mido.sockets import PortServer, connect
+    n = 0
+    for nclients in (0, 1, 2, 3, 5):
+        for drain in ('before-close', 'after-close'):
+            case = {'kind': 'portserver-close', 'clients': nclients, 'drain': drain}
+            server, clients = None, []
+            hook.arm({}, None, None)
+            try:
+                server = PortServer('127.0.0.1', 0)
+                port_no = server._socket.getsockname()[1]
+                got = []
+                for i in range(nclients):
+                    c = connect('127.0.0.1', port_no)
+                    clients.append(c)
+                    c.send(dev_msg(i))
+                    # the server's own polling accepts the connection and takes the message in
+                    for _ in range(300):
+                        m = server.poll()
+                        if m is not None:
+                            got.append(m)
+                        if len(server.ports) > i and (drain == 'after-close' or len(got) > i):
+                            break
+                        time.sleep(0.005)
+                accepted = list(server.ports)
+                if drain == 'after-close':
+                    # let the bytes arrive, take them in without handing them out
+                    deadline = time.time() + 2.0
+                    while len(server._messages) + len(got) < nclients and time.time() < deadline:
+                        try:
+                            server._receive(block=False)
+                        except Exception:
+                            break
+                        time.sleep(0.005)
+                server.close()
+                server.close()
+                got.extend(server.iter_pending())
+                got.extend(server)
+                tags = sorted(tag_of(m)[1] for m in got)
+                ctx.check('results == lifecycle model', len(accepted) == nclients and tags == list(range(nclients)),
+                          'portserver:messages-lost', case, {'accepted': len(accepted), 'delivered': tags})
+                still_open = [i for i, p in enumerate(accepted) if not p.closed or p._socket.fileno() != -1]
+                ctx.check('device released exactly once', server.closed and server._socket.fileno() == -1 and not still_open,
+                          'portserver:connection-not-released', case, {'connections_still_open': still_open})
+                # every client sees the disconnect
+                unseen = []
+                for i, c in enumerate(clients):
+                    for _ in range(200):
+                        try:
+                            c.poll()
+                        except Exception:
+                            pass
+                        if c.closed:
+                            break
+                        time.sleep(0.005)
+                    if not c.closed:
+                        unseen.append(i)
+                ctx.check('device released exactly once', not unseen, 'portserver:client-never-disconnected', case,
+                          {'clients_still_connected': unseen})
+                try:
+                    server.send(out_msg(1))
+                    ctx.check('results == lifecycle model', False, 'portserver:send-after-close', case, None)
+                except ValueError:
+                    ctx.count('results == lifecycle model')
+            except HarnessAbort as exc:
+                ctx.check('blocking call bounded sleeps', False, 'portserver:blocked', case, str(exc))
+            except Exception as exc:
+                ctx.fail('results == lifecycle model', f'portserver-close:{type(exc).__name__}', case, repr(exc))
+            finally:
+                for p in clients + [server]:
+                    try:
+                        if p is not None:
+                            p.close()
+                    except Exception:
+                        pass
+            n += 1
+    return n
+
+
 def multiport_selfclosing_member(ctx, hook):
     """A member device delivers N messages and hangs up inside the same _receive() call: the
     MultiPort (and multi_receive) must still hand out every one of them."""
@@ -872,8 +955,44 @@ class CloseProgram(c10.Program):
             except Exception as exc:
                 self.results.append(('with-raised', repr(exc)))
 
+        # a consumer that takes its time between two items of iter_pending() while another thread uses
+        # the port: the port's lock must not stay taken while the consumer's own code runs
+        self.in_consumer = False
+        self.blocks = []
+        self.items = []
+        self.polled = []
+        sc.on_block = lambda tid, owner, name: self.blocks.append((tid, owner, self.in_consumer))
+        if self.variant.startswith('iterp'):
+            p.dev.extend(dev_msg(i) for i in range(3))
+            p.batch = 3
+
+        def consumer():
+            try:
+                for m in p.iter_pending():
+                    self.items.append(m)
+                    self.in_consumer = True
+                    for _ in range(3):
+                        sc.yield_point(0, None, None, True)
+                    self.in_consumer = False
+            except sched.SchedAbort:
+                raise
+            except Exception as exc:
+                self.results.append(('iter-raised', repr(exc)))
+
+        def poller():
+            for _ in range(2):
+                try:
+                    m = p.poll()
+                    if m is not None:
+                        self.polled.append(m)
+                except sched.SchedAbort:
+                    raise
+                except Exception as exc:
+                    self.results.append(('poll-raised', repr(exc)))
+
         return {'close-close': [closer, closer], 'close-close-close': [closer, closer, closer],
-                'close-send': [closer, sender], 'with-close': [with_user, closer]}[self.variant]
+                'close-send': [closer, sender], 'with-close': [with_user, closer],
+                'iterp-poll': [consumer, poller], 'iterp-send': [consumer, sender], 'iterp-close': [consumer, closer]}[self.variant]
 
 
 def check_close_history(ctx, sc, prog, case):
@@ -887,6 +1006,23 @@ def check_close_history(ctx, sc, prog, case):
     nclose = sum(1 for e in log if e[1] == '_close')
     resets = [tag_of(e[2]) for e in log if e[1] == '_send' and e[2].type == 'control_change']
     bad = [r for r in prog.results if r[0].endswith('raised')]
+    if prog.variant.startswith('iterp'):
+        held = [b for b in prog.blocks if b[2]]
+        ctx.check('non-blocking call never waits', not held, f'{prog.name}:lock-held-while-the-consumer-runs', case,
+                  lambda: {'waits (waiting thread, lock owner, owner in its own code)': held[:3]})
+        # every message exactly once, whoever got it
+        while True:
+            m = prog.port.poll() if not prog.port.closed else None
+            if m is None:
+                break
+            prog.polled.append(m)
+        tags = sorted(tag_of(m)[1] for m in prog.items + prog.polled)
+        if not prog.port.closed or prog.variant != 'iterp-close':
+            ctx.check('results == lifecycle model', tags == [0, 1, 2], f'{prog.name}:messages', case, tags)
+        ctx.check('no call raises', not bad, f'{prog.name}:raised', case, bad[:2])
+        if prog.variant != 'iterp-close':
+            prog.port.closed = True
+            return
     ctx.check('concurrent close releases once', nclose == 1 and prog.port.closed, f'{prog.name}:release-count', case,
               {'releases': nclose})
     ctx.check('reset messages once, before release', resets == [('reset',) + r for r in RESETS],
@@ -909,7 +1045,7 @@ def run_close_schedule(prog, strategy):
 def concurrency_part(ctx, tier, shard_filter):
     n = 0
     distinct = set()
-    for vi, variant in enumerate(('close-close', 'close-send', 'with-close', 'close-close-close')):
+    for vi, variant in enumerate(('close-close', 'close-send', 'with-close', 'close-close-close', 'iterp-poll', 'iterp-send', 'iterp-close')):
         base = sched.Preempt(())
         prog = CloseProgram(variant)
         sc = run_close_schedule(prog, base)
@@ -1022,6 +1158,11 @@ def run(ctx):
             ctx.nontrivial(None, k)
             ctx.extra('echo_blocking_cases', k)
             n += k
+        if ctx.shard == 3 % ctx.nshards:
+            k = portserver_close_cases(ctx, hook)
+            ctx.nontrivial(None, k)
+            ctx.extra('portserver_close_cases', k)
+            n += k
     finally:
         mido.ports.sleep = orig
         mido.ports.time = orig_time
@@ -1054,6 +1195,8 @@ def replay(ctx, case):
             multiport_selfclosing_member(ctx, hook)
         elif k == 'echo-blocking':
             echo_blocking_cases(ctx, hook)
+        elif k == 'portserver-close':
+            portserver_close_cases(ctx, hook)
         elif k == 'multi-failing-member':
             multiport_failing_member(ctx, hook)
     finally:
